@@ -24,6 +24,8 @@ impl NameMap {
             "dotted" => vec!["..a", "x..tar.gz", "a.", "...", ".hidden", ".b."],
             "dotted2" => vec![".hidden", "a..", "x.tar.gz", "....", "b.c", ". ."],
             "multi" => vec!["ä", "日本", "a b", "🦀", "é\u{301}", "ß_wö"],
+            // the names of the embedded fixture folder (harness/fixtures/emb): dotted, prefix-sharing, multi-byte, with a space
+            "fixture" => vec!["a.txt", "a.txt.dir", "ä.bin", "sub dir", ".hidden", "empty"],
             "long" => vec![],
             _ => panic!("unknown name map {id}"),
         };
